@@ -196,7 +196,8 @@ class ConfigService:
             return []
         if isinstance(value, str):
             return [path for path in value.split(',') if path]
-        return list(value)
+        # an empty element (DEEP_IN_APP_EXCLUDE set but empty, a trailing comma) names no prefix: every path starts with ''
+        return [path for path in value if path]
 
     def _find_plugin(self, plugin_type) -> PLUGIN_TYPE:
         return next(self.__plugin_generator(plugin_type), None)
